@@ -1,7 +1,7 @@
 (* P_Strings.v — the text of a string under every operation of the string class:
    nothing is altered, dropped or duplicated. *)
-From TP Require Import Base Elem Term Screen Markup Strings P_Props.
-From Coq Require Import Lia.
+From TP Require Import Base Elem Term Screen Markup Oracle Strings P_Props.
+From Coq Require Import Lia ZifyBool ZifyN.
 Local Open Scope N_scope.
 
 Lemma to_string_split s pos : to_string s = to_string (firstn pos s) ++ to_string (skipn pos s).
@@ -57,3 +57,32 @@ Qed.
 Lemma to_string_set s i e : (i < length s)%nat ->
   to_string (s_set s i e) = to_string (firstn i s) ++ glyph_text (eg e) ++ to_string (skipn (S i) s).
 Proof. intros H. unfold s_set. rewrite (list_set_firstn_skipn s i e H), to_string_app. reflexivity. Qed.
+
+(* a glyph made from a pointer into text is the glyph of the first character,
+   whatever follows it *)
+Lemma glyph_of_cstr_wire g rest :
+  gcs g = CsUtf8 -> wf_utf8 g = true -> glyph_of_cstr (wire g ++ rest) = g.
+Proof.
+  intros Hc Hwf. destruct g as [c b0 b1 b2]. cbn [gcs] in Hc. subst c.
+  unfold wf_utf8, cont in Hwf. cbn [g0 g1 g2] in Hwf.
+  unfold wire, utf8_len, hi. cbn [gcs g0 g1 g2]. change (cs_eqb CsUtf8 CsUtf8) with true. cbn iota.
+  unfold glyph_of_cstr, is_cont.
+  destruct (b0 <=? 127) eqn:E0.
+  - assert (b1 = 0 /\ b2 = 0) as [-> ->] by lia.
+    assert (negb (128 <=? b0) = true) as -> by lia. cbn [app nth].
+    assert ((b0 <? 128) = true) as -> by lia. reflexivity.
+  - assert (negb (128 <=? b0) = false) as -> by lia.
+    destruct (b2 =? 0) eqn:E2.
+    + assert (b2 = 0) as -> by lia.
+      assert (negb (128 <=? b1) = false) as -> by lia. cbn [negb N.leb]. 
+      assert (negb (128 <=? 0) = true) as -> by reflexivity. cbn [app nth].
+      assert ((b0 <? 128) = false) as -> by lia.
+      assert ((192 <=? b0) && (b0 <? 224) = true) as -> by lia. cbn [N.leb].
+      assert ((128 <=? b1) && (b1 <? 192) = true) as -> by lia. reflexivity.
+    + assert (negb (128 <=? b1) = false) as -> by lia.
+      assert (negb (128 <=? b2) = false) as -> by lia. cbn [app nth].
+      assert ((b0 <? 128) = false) as -> by lia.
+      assert ((192 <=? b0) && (b0 <? 224) = false) as -> by lia. cbn [N.leb].
+      assert ((128 <=? b1) && (b1 <? 192) = true) as -> by lia.
+      assert ((128 <=? b2) && (b2 <? 192) = true) as -> by lia. reflexivity.
+Qed.
